@@ -75,7 +75,7 @@ UNPROVED = ["element type of the result: the rule resultKind (sel/getitem/pad pr
             "resampling from or to thousands of cells along an axis, requests with nan/inf, non-region items, non-integer pad widths "
             "and resample counts are judged by the oracle on the real code only (tag oracle-only-op): the driver protocol has no "
             "encoding for them / the model's nearest-coordinate lookup is quadratic in the axis length",
-            "OPEN, generated only with VERIF_C07_F4INT=1 (proposed finding D117): on integer-typed corners a selection coordinate of "
+            "FIXED in /repo f823ca7a (finding D118), generated by default: on integer-typed corners a selection coordinate of "
             "type numpy.float32/float16 is truncated to an integer before the cell lookup"]
 BUDGET = {"quick": 95, "thorough": 900}
 
@@ -456,7 +456,7 @@ def getitem_ops_tol(rng, spec, subs, tier):
 
 # ---- streams added after the R4 seeded changes: coordinates at every relative distance from faces / boundaries,
 # ---- thousands of cells along one axis, far offsets, scales 1e-12 .. 1e9, user-defined tolerance factors, value types
-FLAG_F4_INT = os.environ.get("VERIF_C07_F4INT") == "1"  # narrow-float coordinates on integer-typed corners: see known()
+FLAG_F4_INT = os.environ.get("VERIF_C07_F4INT", "1") != "0"  # narrow-float coordinates on integer-typed corners: see known()
 
 
 def fits(*vals):
@@ -2061,7 +2061,7 @@ def known(case, text):
     ms = case.get("mesh", {})
     if all(isinstance(v, int) for v in list(ms.get("p1", [])) + list(ms.get("p2", []))) and \
             any(isinstance(op.get("arg"), dict) and op["arg"].get("as") in ("f4", "f2") for op in case.get("ops", [])):
-        return "D117"
+        return None   # was finding D118 (fixed in /repo f823ca7a): nothing is excused any more
     return None
 
 
